@@ -31,6 +31,9 @@ inline void variant_convert_ops() {
     const int x = nondet<int>();
     if (start_int) w = x;
     const std::uint8_t op = nondet<std::uint8_t>();
+    g_watch_obj = &w;
+    g_watch_size = sizeof w;
+    g_watch_index = &w.index_;
     if (op == 0) {
       w = Tag{};  // converting assignment: the Conv alternative is constructed from the Tag
       vt_check(w.index() == 0 && w.get<Conv>() != nullptr && w.get<Conv>()->value == 99 && w.get<int>() == nullptr, "converting assignment activates the alternative the value converts to");
@@ -45,6 +48,8 @@ inline void variant_convert_ops() {
       W d(c);
       vt_check(d.index() == 0 && d.get<Conv>()->value == 99 && g_live == 2, "copy of a converted element compares equal to its source");
     }
+    g_watch_obj = nullptr;
+    vt_check(g_ctor_while_indexed == 0, "an element constructor only ever runs while the Variant reports empty (a throwing constructor leaves it empty)");
     vt_cover(op == 0 && start_int, "converting assignment over another alternative reached");
   }
   vt_check(g_live == 0 && g_ctor == g_dtor && g_bad == 0, "converted elements are destroyed exactly once");
@@ -98,6 +103,10 @@ inline void variant_ops() {
     const std::int32_t target = nondet<std::int32_t>();
     const std::uint8_t op = nondet<std::uint8_t>();
     const int ka0 = ka, kb0 = kb;
+    // throw-point watch on a (see tracked.h): armed for the operations that re-construct a's element
+    g_watch_obj = &a;
+    g_watch_size = sizeof a;
+    g_watch_index = &a.index_;
     if (op == 0) {  // copy assignment
       a = b;
       ka = kb; va = vb;
@@ -142,6 +151,8 @@ inline void variant_ops() {
       if (ka == 0) { a.get<T0>()->value = x; va = x; }
       if (ka == 2) { *a.get<2>() = x; va = x; }
     }
+    g_watch_obj = nullptr;
+    vt_check(g_ctor_while_indexed == 0, "an element constructor only ever runs while the Variant reports empty (a throwing constructor leaves it empty)");
     check_variant(a, ka, va);
     check_variant(b, kb, vb);  // the source of a move keeps a valid (same-alternative) state
     vt_check(g_live == live_of(ka) + live_of(kb), "after the operation: live elements == Variants holding a tracked alternative");
@@ -155,7 +166,45 @@ inline void variant_ops() {
   vt_check(g_bad == 0, "no element used, assigned or destroyed while not alive");
 }
 
+// single-alternative Variant: the terminal case of the recursive storage handles every index itself
+using U = nop::Variant<T0>;
+inline void variant_single_ops() {
+  ghost_reset();
+  {
+    U a;
+    const bool full = nondet<bool>();
+    const int val = nondet<int>();
+    if (full) a = T0(val);
+    int k = full ? 0 : -1;
+    int v = val;
+    vt_check(a.index() == k && g_live == (full ? 1 : 0), "operand state of the single-alternative Variant");
+    const std::int32_t target = nondet<std::int32_t>();
+    const std::uint8_t op = nondet<std::uint8_t>();
+    if (op == 0) {
+      a.Become(target);
+      if (target != k) {
+        if (target == 0) { k = 0; v = 0; }
+        else k = -1;  // every other index, negative ones included, leaves it empty
+      }
+    } else if (op == 1) {
+      a = nop::EmptyVariant{};
+      k = -1;
+    } else if (op == 2) {
+      U b(a);
+      vt_check(b.index() == k && g_live == 2 * (k == 0 ? 1 : 0), "copy of a single-alternative Variant");
+    }
+    vt_check(a.index() == k && a.empty() == (k == -1), "index() names the active alternative (-1 when empty)");
+    vt_check((a.get<T0>() != nullptr) == (k == 0), "get<T>() is non-null exactly when T is active");
+    if (k == 0) vt_check(a.get<T0>()->value == v && a.get<T0>()->alive == kAlive, "the active element is alive and carries the expected value");
+    vt_check(g_live == (k == 0 ? 1 : 0), "after the operation: live elements == Variants holding a tracked alternative");
+    vt_cover(op == 0 && full && target < -1, "Become to an invalid negative index over a full Variant reached");
+    vt_cover(op == 0 && !full && target == 0, "Become from empty reached");
+  }
+  vt_check(g_live == 0 && g_ctor == g_dtor && g_bad == 0, "every element the Variant constructed was destroyed exactly once");
+}
+
 }  // namespace vt
 
+VT_HARNESS(h_variant_single) { vt::variant_single_ops(); }
 VT_HARNESS(h_variant_ops) { vt::variant_ops(); }
 VT_HARNESS(h_variant_convert) { vt::variant_convert_ops(); }
